@@ -392,7 +392,16 @@ class Server:
 
         try:
             while True:
-                z = q_out.get()
+                try:
+                    z = q_out.get()
+                except (EOFError, OSError):
+                    raise  # the queue itself is broken
+                except Exception as e:
+                    # A result that can not be loaded from the output pipe (e.g. an exception
+                    # object of a class that pickle can not re-create). Its request is lost
+                    # (the request ID was in the same message); the others must not be.
+                    logger.error('a result can not be loaded from the output queue: %r', e)
+                    continue
                 if z is None:
                     break
                 uid, y = z
@@ -683,7 +692,14 @@ class AsyncServer:
                 fut.set_result(y)
 
         while True:
-            z = q_out.get()
+            try:
+                z = q_out.get()
+            except (EOFError, OSError):
+                raise  # the queue itself is broken
+            except Exception as e:
+                # See `Server._gather_output`.
+                logger.error('a result can not be loaded from the output queue: %r', e)
+                continue
             if z is None:
                 break
             uid, y = z
